@@ -38,10 +38,11 @@ RULE = (
     "design_space: 1-4 variables (multi-character names, sizes 1-3, float/integer, finite/infinite/equal bounds on several "
     "scales, missing current values) through HDF5 (root/nested node, fresh file or appended next to another node; exact), CSV "
     "(relative 1e-15) and to_file/from_file with .h5/.hdf5/.csv/.txt suffixes, compared field by field with the drawn spec. "
-    "problem: design space, objective (min/max), 0-2 constraints (eq/ineq, positive, offset, dim 1-2), 0-1 observable, "
+    "problem: design space, objective (min/max), 0-2 constraints (eq/ineq, positive, offset, dim 1-2) as plain MDOFunctions or as "
+    "MDOLinearFunctions with dense/sparse coefficients (saved is_linear True or False), 0-1 observable, "
     "tolerances, differentiation method/step, hand-filled database, optional solution, root/nested node, compared attribute by "
     "attribute with the original. hdf5_cache: 2-10 cache_outputs/cache_jacobian operations over a pool of inputs (dense/sparse "
-    "Jacobians, tolerance 0/1e-9) interleaved with re-instantiations (file singleton kept or forgotten), compared with a model "
+    "Jacobians, tolerance 0/1e-9, real or deliberately colliding 2-bucket input hash) interleaved with re-instantiations (file singleton kept or forgotten), compared with a model "
     "through len, get_all_entries and lookups. "
     "Non-trivial (database) = an append export onto a file that already holds entries, after both a new point and a new output "
     "at an already exported point; (design_space) = >=2 variables with an integer variable, an infinite bound and a missing "
@@ -487,6 +488,11 @@ def problem_specs():
         "n_float": st.integers(1, 2), "with_int": st.booleans(), "xname": st.sampled_from(["x", "x", "xy"]),
         "obj": st.fixed_dictionaries({"name": st.integers(0, 3), "expr": st.integers(0, len(EXPRS) - 1), "out_names": st.booleans()}),
         "minimize": st.booleans(),
+        # "all": objective and constraints are MDOLinearFunctions (is_linear is True); "objective": only the objective is
+        "linear": st.sampled_from(["no", "no", "all", "all", "all", "objective"]),
+        "sparse_coefficients": st.booleans(),
+        "coefficients": st.lists(st.integers(-4, 4), min_size=8, max_size=8),
+        "auto_expr": st.booleans(),
         "cons": st.lists(cons, min_size=0, max_size=2),
         "observable": st.booleans(),
         "tol_ineq": st.sampled_from([0, 0, 0, 2, 3, 4]), "tol_eq": st.sampled_from([1, 1, 1, 2, 3, 4]),
@@ -502,6 +508,18 @@ def build_problem(p):
     from gemseo.algos.optimization_problem import OptimizationProblem
     from gemseo.algos.optimization_result import OptimizationResult
     from gemseo.core.mdo_functions.mdo_function import MDOFunction
+    from gemseo.core.mdo_functions.mdo_linear_function import MDOLinearFunction
+    from scipy.sparse import csr_array
+
+    linear = p.get("linear", "no")
+    coefs = p.get("coefficients", [1] * 8)
+
+    def linear_function(name, dim, shift, expr):
+        mat = np.array([[0.5 * coefs[(shift + i * n + j) % 8] for j in range(n)] for i in range(dim)])
+        if p.get("sparse_coefficients"):
+            mat = csr_array(mat)
+        b = 0.25 * coefs[shift % 8] if dim == 1 else np.array([0.25 * coefs[(shift + i) % 8] for i in range(dim)])
+        return MDOLinearFunction(mat, name, input_names=in_names, value_at_zero=b, expr=None if p.get("auto_expr") else expr)
 
     ds = DesignSpace()
     xname = p.get("xname", "x")
@@ -512,8 +530,11 @@ def build_problem(p):
     in_names = [xname] + (["k_int"] if p["with_int"] else [])
     problem = OptimizationProblem(ds, differentiation_method=DIFF[p["diff"]], differentiation_step=p["step"])
     oname = F_NAMES[p["obj"]["name"]]
-    problem.objective = MDOFunction(lambda x: 0.0, oname, expr=EXPRS[p["obj"]["expr"]], input_names=in_names, dim=1,
-                                    output_names=[oname] if p["obj"]["out_names"] else ())
+    if linear in ("all", "objective"):
+        problem.objective = linear_function(oname, 1, 0, EXPRS[p["obj"]["expr"]])
+    else:
+        problem.objective = MDOFunction(lambda x: 0.0, oname, expr=EXPRS[p["obj"]["expr"]], input_names=in_names, dim=1,
+                                        output_names=[oname] if p["obj"]["out_names"] else ())
     problem.minimize_objective = p["minimize"]
     used = set()
     for con in p["cons"]:
@@ -522,8 +543,11 @@ def build_problem(p):
             k = (k + 1) % len(C_NAMES)
         used.add(C_NAMES[k])
         d = con["dim"]
-        problem.add_constraint(MDOFunction(lambda x, d=d: np.zeros(d), C_NAMES[k], expr=EXPRS[con["expr"]], input_names=in_names, dim=d),
-                               value=con["value"], constraint_type=con["type"], positive=con["positive"])
+        if linear == "all":
+            function = linear_function(C_NAMES[k], d, 1 + 2 * len(used), EXPRS[con["expr"]])
+        else:
+            function = MDOFunction(lambda x, d=d: np.zeros(d), C_NAMES[k], expr=EXPRS[con["expr"]], input_names=in_names, dim=d)
+        problem.add_constraint(function, value=con["value"], constraint_type=con["type"], positive=con["positive"])
     if p["observable"]:
         problem.add_observable(MDOFunction(lambda x: np.zeros(1), "obs_1", input_names=in_names, dim=1))
     problem.tolerances.inequality = TOLS[p["tol_ineq"]]
@@ -638,6 +662,9 @@ def case_problem(p, ctx):
             ctx.cls("problem:constrained")
         if tol != T_DEFAULT:
             ctx.cls("problem:non_default_tolerances")
+        ctx.cls("problem:saved_with_is_linear=" + str(bool(problem.is_linear)))
+        if p.get("linear", "no") != "no":
+            ctx.cls("problem:linear_functions_" + ("sparse" if p.get("sparse_coefficients") else "dense") + "_coefficients")
         if p["solution"] and p["cons"]:
             ctx.nontriv(("problem", p))
             ctx.cls("problem:nontrivial")
@@ -656,15 +683,30 @@ def cache_specs():
     return st.fixed_dictionaries({
         "pool": st.lists(entry, min_size=2, max_size=5), "ops": st.lists(op, min_size=2, max_size=10),
         "sparse": st.booleans(), "tol": st.sampled_from([0.0, 0.0, 1e-9]), "node": st.sampled_from(["node", "a/b"]),
+        "weak_hash": st.sampled_from([False, False, True]),  # a valid 2-bucket hash: several entries per hash value
     })
 
 
+def weak_hash(data) -> int:
+    """A valid but poor hash: equal data give equal hashes, two buckets in all."""
+    try:
+        first = float(np.asarray(data["x"], dtype=float).ravel()[0])
+        return 1000 + int(np.floor(first)) % 2
+    except Exception:  # noqa: BLE001
+        return 7
+
+
 def case_cache(p, ctx):
+    import gemseo.caches._hdf5_file_singleton as hfs
+    import gemseo.caches.base_full_cache as bfc
     from gemseo.caches.hdf5_cache import HDF5Cache
     from scipy.sparse import csr_array
 
     case_dir = _scratch()
+    saved_hash = (bfc.hash_data, hfs.hash_data)
     try:
+        if p.get("weak_hash"):
+            bfc.hash_data = hfs.hash_data = weak_hash
         path = os.path.join(case_dir, "cache.h5")
 
         def open_cache():
@@ -772,6 +814,10 @@ def case_cache(p, ctx):
         ctx.cls("cache:node=" + p["node"], "cache:sparse_jacobian" if p["sparse"] else "cache:dense_jacobian")
         if n_reopen:
             ctx.cls("cache:reopened_mid_history")
+        if p.get("weak_hash"):
+            ctx.cls("cache:colliding_hash")
+            if any(len(v) > 1 for v in cache._hashes_to_indices.values()):
+                ctx.cls("cache:hash_bucket_with_several_entries_after_reopen")
         if any(r["out"] is None for r in model):
             ctx.cls("cache:jacobian_only_entry")
         if nontrivial:
@@ -779,6 +825,7 @@ def case_cache(p, ctx):
             ctx.cls("cache:nontrivial")
         ctx.sample({"oracle": "hdf5_cache", "case": p})
     finally:
+        bfc.hash_data, hfs.hash_data = saved_hash
         forget_singletons(case_dir)
         shutil.rmtree(case_dir, ignore_errors=True)
 
